@@ -233,7 +233,25 @@ def analyse(ctx, rep, api_name, consts_list, allowed, pid):
         if s.discharge is None and s.kind in ("subscript", "assert", "int") and not info.f.is_method and info.f.cls is None \
                 and triage_lookup(ctx, s, site_key(s, occ)[:3]) is None:
             need[info.f.qual] = info.f
+    # a private helper is analysed in the context of its callers (the engine inlines it there), not with unknown arguments
+    todo = {}
     for q, f in sorted(need.items()):
+        ctxs, frontier = [], [f]
+        for _ in range(2):
+            nxt = []
+            for g in frontier:
+                callers = _callers_of(ctx, g) if (g.cls is None and g.name.startswith("_") and not g.name.startswith("__")) else []
+                callers = [c for c in callers if c.cls is None and c.qual in E.quals]
+                if callers:
+                    nxt.extend(callers)
+                else:
+                    ctxs.append(g)
+            frontier = nxt
+            if not frontier:
+                break
+        for g in ctxs + frontier:
+            todo[g.qual] = g
+    for q, f in sorted(todo.items()):
         ec.run_on(f)
     apply_engine()
     return E, ec, occ
@@ -680,6 +698,37 @@ def check_termination(ctx, rep, E, ec):
     return n
 
 
+def _endpoints_differ_by_paths(ctx, f, call_node):
+    """path-sensitive fallback for EST-RINGBOND_DISTINCT (a guard spelled through a flag variable): on every path of the
+    abstract interpretation that reaches the add_ring_bond call, the equality of its two endpoints is known to be false"""
+    from sa.sym import Engine, Hooks, vkey, Num
+    from sa.lin import eq as _eq
+    hits = []
+
+    class H(Hooks):
+        def on_call(self, eng, fr, node, callee, args, kwargs, st):
+            if node is call_node and hasattr(callee, "name") and callee.name == "add_ring_bond":
+                bound = eng.bind_args(callee, args[1:], kwargs, skip_self=True) or {}
+                hits.append((bound.get("a"), bound.get("b"), st))
+            return None
+    try:
+        Engine(ctx, H()).run_function(f, {})
+    except AnalysisError:
+        return False
+    if not hits:
+        return False
+    for a, b, st in hits:
+        if a is None or b is None:
+            return False
+        key = ("eq", tuple(sorted([repr(vkey(a)), repr(vkey(b))])))
+        if st.atoms.get(key) is False:
+            continue
+        if isinstance(a, Num) and isinstance(b, Num) and not st.feasible([_eq(a.lin - b.lin, 0)]):
+            continue
+        return False
+    return True
+
+
 def check_establishing(ctx, rep, E):
     """establishing-site rules of named invariants that the encoder's totality rests on"""
     from sa.guards import guard_facts, u
@@ -713,6 +762,8 @@ def check_establishing(ctx, rep, E):
                         l, _, r = fct[1].partition("!=")
                         if {l.strip(), r.strip()} == {a, b}:
                             ok = True
+                if not ok:
+                    ok = _endpoints_differ_by_paths(ctx, f, node)
                 rep.ob("EST", ok, node, f, construct="add_ring_bond(%s, %s, ...)" % (a, b),
                        how="dominated by a raising guard that the two endpoints differ (establishes RINGBOND_DISTINCT)",
                        witness=None if ok else "a ring bond can be created between an atom and itself (e.g. 'C11'): the ring distance 0 later "
